@@ -3,10 +3,12 @@
  "name": "qcow2_write_raw_image",
  "props": ["C19"],
  "level": "U/iter",
- "tier": "quick",
+ "tier": "wip",
+ "tier_after_hooks": "quick",
  "harness": "h_qcow2_to_raw",
  "loop_contracts": true,
  "replace": ["ext2fs_get_memzero", "qcow2_copy_data"],
+ "defines": ["SPEC_PINNED_TABLE_LIMIT"],
  "unwind": 6,
  "unwindset": {"__CPROVER_contracts_write_set_check_assigns_clause_inclusion.0": 10},
  "unwind_reason": "the L1 and L2 walks of qcow2_write_raw_image are cut by in-place loop contracts (hooks-pending/tools.diff); the bound serves the DFCC library loops (unwinding assertions on)",
@@ -16,8 +18,43 @@
              "ext2fs_llseek, read(2), write(2) are stubs: seeks succeed or fail (harness-chosen, independently per call), read delivers the full count or fails; the L1 table read delivers ARBITRARY entries with the harness's arbitrary entry at K1, an L2 table read from the offset recorded at L1[K1] delivers arbitrary entries with the harness's arbitrary entry at K2 (tables read from other offsets are arbitrary)",
              "ext2fs_get_memzero (inline malloc+memset of ext2fs.h) is replaced by a contract returning a fresh object of the requested size with ARBITRARY contents (every table is overwritten by read before use) or failing; qcow2_copy_data is replaced by a contract with an arbitrary result (its own loop - retries, short writes - is not part of this unit)",
              "header: cluster_bits 9..30 (the function accepts 31 as well, but then evaluates 1 << 31 in int - undefined signed shift, excluded here and reported as an observation), l1_size <= 2^16 (harness object size) and l1_size * l2_size * cluster_size <= 2^64 (the L1 table describes at most 2^64 bytes of guest space: honest images have l1_size == ceil(size / bytes per L1 entry); the function itself only checks l1_size against a far more generous bound), no encryption",
-             "the reader treats an L1 entry that is 0 or points beyond the guest size (hdr.size) as 'no table' and an L1 entry with the COMPRESSED bit as an error; the statement is made for L1 entries 0 < offset <= hdr.size (e2image's own images: tables precede the data they describe)",
+             "the reader treats an L1 entry that is 0 or points beyond the guest size (hdr.size) as 'no table' and an L1 entry with the COMPRESSED bit as an error; this GREEN unit (define SPEC_PINNED_TABLE_LIMIT; drop the define once the fix is merged - the unit then fails on the unfixed reader and passes on the fixed one) makes the statement only for L1 entries 0 < offset <= hdr.size; the unrestricted statement is unit qcow2_to_raw_table_beyond_size (wip, genuine defect findings/C19_qcow2_l1_beyond_size); the final size-fixing write is unit qcow2_to_raw_last_byte (wip, findings/C19_qcow2_raw_last_byte)",
              "little-endian host; U/iter: steps proved from arbitrary states satisfying the proved invariants"],
+ "native": false
+}
+*/
+/* VERIF-UNIT
+{
+ "name": "qcow2_to_raw_table_beyond_size",
+ "props": ["C19"],
+ "level": "U/iter",
+ "tier": "wip",
+ "harness": "h_qcow2_to_raw",
+ "loop_contracts": true,
+ "replace": ["ext2fs_get_memzero", "qcow2_copy_data"],
+ "unwind": 6,
+ "unwindset": {"__CPROVER_contracts_write_set_check_assigns_clause_inclusion.0": 10},
+ "unwind_reason": "as qcow2_write_raw_image",
+ "functions": ["lib/ext2fs/qcow2.c:qcow2_write_raw_image"],
+ "assumes": ["as qcow2_write_raw_image, but the statement is made for EVERY non-zero L1 entry (an L2 table may lie anywhere in the qcow2 file): FAILS on the pinned tree - genuine defect findings/C19_qcow2_l1_beyond_size (tables beyond the guest size are skipped, e2image -r of an e2image -Qa image of a nearly full file system silently loses file data); passes with that finding's proposed-fix.patch"],
+ "native": false
+}
+*/
+/* VERIF-UNIT
+{
+ "name": "qcow2_to_raw_last_byte",
+ "props": ["C19"],
+ "level": "U/iter",
+ "tier": "wip",
+ "harness": "h_qcow2_to_raw",
+ "loop_contracts": true,
+ "replace": ["ext2fs_get_memzero", "qcow2_copy_data"],
+ "defines": ["SPEC_KEEP_COPIED_BYTES", "SPEC_PINNED_TABLE_LIMIT"],
+ "unwind": 6,
+ "unwindset": {"__CPROVER_contracts_write_set_check_assigns_clause_inclusion.0": 10},
+ "unwind_reason": "as qcow2_write_raw_image",
+ "functions": ["lib/ext2fs/qcow2.c:qcow2_write_raw_image"],
+ "assumes": ["as qcow2_write_raw_image, plus: the final size-fixing write must not land inside a cluster that was copied: FAILS on the pinned tree - genuine defect findings/C19_qcow2_raw_last_byte (the last byte of the raw image is overwritten with 0 after the last cluster was copied); passes with that finding's proposed-fix.patch (lseek(SEEK_END) on the raw file is modelled as: at least the end of every copied cluster)"],
  "native": false
 }
 */
@@ -54,6 +91,7 @@ struct in_s {
 	long long seek_fail[8];
 	long read_fail[8];
 	long tail_write;
+	long long raw_size;			/* answer to lseek(raw_fd, 0, SEEK_END), if asked */
 	int err;
 };
 struct in_s IN;
@@ -71,6 +109,7 @@ static unsigned long long g_e1;			/* table offset recorded at L1[K1] */
 static void *g_l1_buf;
 static void *g_copy_buf;
 static unsigned int g_allocs;
+static long long g_raw_pos;			/* position of the raw descriptor after its latest absolute seek */
 
 errcode_t ext2fs_get_memzero(unsigned long size, void *ptr)
 	/* failure leaves the caller's pointer as it was */
@@ -89,11 +128,19 @@ ext2_loff_t ext2fs_llseek(int fd, ext2_loff_t offset, int origin)
 {
 	long long f = IN.seek_fail[verif_g6 & 7];
 	verif_g6++;
+	if (origin == SEEK_END) {
+		/* size of the raw file so far: at least the end of every cluster copied (here: of the ghost cluster) */
+		__CPROVER_assert(fd == IN.rawfd && offset == 0, "CHECK:seek: SEEK_END only to ask for the size of the raw file");
+		ASSUME(IN.raw_size >= 0 && (verif_g2 == 0 || (unsigned long long)IN.raw_size >= g_raw + ((__u64)1 << g_cb)));
+		return IN.raw_size;
+	}
 	__CPROVER_assert(origin == SEEK_SET, "CHECK:seek: absolute");
 	if (f < 0)
 		return -1;
 	if (fd == IN.qfd)
 		verif_g5 = offset;
+	else
+		g_raw_pos = offset;
 	return offset;
 }
 ssize_t read(int fd, void *buf, size_t count)
@@ -117,6 +164,10 @@ ssize_t read(int fd, void *buf, size_t count)
 ssize_t write(int fd, const void *buf, size_t count)
 {
 	__CPROVER_assert(fd == IN.rawfd && count == 1, "CHECK:write: the final size-fixing byte of the raw image");
+#ifdef SPEC_KEEP_COPIED_BYTES
+	__CPROVER_assert(!(verif_g2 >= 1 && g_raw <= (unsigned long long)g_raw_pos && (unsigned long long)g_raw_pos < g_raw + ((__u64)1 << g_cb)),
+			 "CHECK:the size-fixing byte is not written into a cluster that was copied (arbitrary cluster)");
+#endif
 	return IN.tail_write;
 }
 
@@ -138,7 +189,7 @@ void h_qcow2_to_raw(void)
 	ASSUME(cb < 9 || cb > 31 || (unsigned long long)l1_size <= (1ULL << (64 - (2 * cb - 3))));
 	ASSUME(IN.qfd != IN.rawfd);
 	errno = IN.err;
-	g_cb = cb; g_l1_buf = 0; g_allocs = 0;
+	g_cb = cb; g_l1_buf = 0; g_allocs = 0; g_raw_pos = -1;
 	const unsigned long long e1 = PSPEC_BE64(&IN.l1_entry, 0) & ~SPEC_COPIED;
 	const unsigned long long d = PSPEC_BE64(&IN.l2_entry, 0) & ~SPEC_COPIED;
 	int req = 0;
@@ -151,7 +202,11 @@ void h_qcow2_to_raw(void)
 			g_raw = (((unsigned long long)IN.k1 << (cb - 3)) + IN.k2) << cb;	/* guest cluster n at byte n * cluster_size */
 			g_e1 = e1;
 			g_data = d;
-			req = e1 != 0 && e1 <= size && !(e1 & SPEC_COMPRESSED) && d != 0;
+#ifdef SPEC_PINNED_TABLE_LIMIT
+			req = e1 != 0 && e1 <= size && !(e1 & SPEC_COMPRESSED) && d != 0;	/* as far as the pinned reader goes, see assumes */
+#else
+			req = e1 != 0 && !(e1 & SPEC_COMPRESSED) && d != 0;			/* format: any non-zero L1 entry names a table */
+#endif
 		}
 	}
 	verif_g0 = IN.k1; verif_g1 = IN.k2; verif_g2 = 0; verif_g3 = req; verif_g4 = 0; verif_g5 = 0; verif_g6 = 0; verif_g7 = 0;
